@@ -360,3 +360,73 @@ def layers_coq(spec):
             out.append("LDense [" + "; ".join(f"({a},{b},{g})" for a, b, g in zip(l["a"], l["b"], l["g"])) + "]")
             shape = [len(l["a"])]
     return "[" + ";\n   ".join(out) + "]%nat"
+
+
+def make_custom(rng, in_shape, layers, param="raw", tau=1.0):
+    """layers: list of ("conv", dict(K, depth, rf, stride, pad, conn)) | ("pool", dict(k, s, p)) | ("flatten",) | ("dense", width) | ("gs", k).
+    rf may be an int or a per-axis tuple (3-D)."""
+    shape = list(in_shape)
+    dims = len(shape) - 1
+    mods = []
+    for l in layers:
+        if l[0] == "conv":
+            a = l[1]
+            rf = a["rf"]
+            rfs = list(rf) if isinstance(rf, (tuple, list)) else [rf] * dims
+            kw = dict(in_dim=tuple(shape[1:]), device="cpu", channels=shape[0], num_kernels=a["K"], tree_depth=a["depth"],
+                      receptive_field_size=rf, stride=a.get("stride", 1), padding=a.get("pad", 0), connections=a.get("conn", "random"))
+            if dims == 2:
+                c = LogicConv2d(parametrization=param, weight_init="random", **kw)
+                set_tree_gates(rng, c, param)
+            else:
+                c = LogicConv3d(**kw)
+                set_tree_gates(rng, c, "raw")
+            if a.get("identity"):
+                # every node passes its first input through (gate 3 = A): with rf 1 the layer is the identity on the image
+                for level in c.tree_weights:
+                    for w in level:
+                        set_gates(rng, w, [3] * w.shape[0], param if dims == 2 else "raw")
+            mods.append(c)
+            shape = [a["K"]] + [out_len(n, a.get("pad", 0), r, a.get("stride", 1)) for n, r in zip(shape[1:], rfs)]
+        elif l[0] == "pool":
+            a = l[1]
+            mods.append(OrPooling(a["k"], a["s"], a.get("p", 0)))
+            shape = [shape[0]] + [out_len(n, a.get("p", 0), a["k"], a["s"]) for n in shape[1:]]
+        elif l[0] == "flatten":
+            mods.append(torch.nn.Flatten())
+            shape = [int(np.prod(shape))]
+        elif l[0] == "dense":
+            p_ = param if dims == 2 else "raw"
+            d = LogicDense(shape[0], l[1], device="cpu", parametrization=p_)
+            set_gates(rng, d, [rng.randrange(16) for _ in range(l[1])], p_)
+            mods.append(d)
+            shape = [l[1]]
+        elif l[0] == "gs":
+            mods.append(GroupSum(l[1], tau, device="cpu"))
+    return torch.nn.Sequential(*mods)
+
+
+SYSTEMATIC_STACKS = [
+    # (name, input shape, layers)
+    ("rect-tall-pad1", (1, 4, 2), [("conv", dict(K=2, depth=2, rf=3, pad=1)), ("flatten",), ("gs", 2)]),
+    ("rect-wide-pad1", (1, 2, 4), [("conv", dict(K=2, depth=2, rf=3, pad=1)), ("flatten",), ("gs", 2)]),
+    ("rect-pad2-stride2", (2, 2, 3), [("conv", dict(K=2, depth=1, rf=3, pad=2, stride=2)), ("flatten",), ("dense", 4), ("gs", 2)]),
+    ("stride-eq-rf", (1, 3, 3), [("conv", dict(K=3, depth=1, rf=2, stride=2, pad=1)), ("flatten",), ("gs", 3)]),
+    ("pool-tall-pad1-overhang", (1, 3, 2), [("conv", dict(K=2, depth=1, rf=1, identity=True)), ("pool", dict(k=2, s=2, p=1)), ("flatten",), ("gs", 2)]),
+    ("pool-tall-pad1-s1", (1, 4, 2), [("conv", dict(K=1, depth=1, rf=1, identity=True)), ("pool", dict(k=2, s=1, p=1)), ("flatten",), ("gs", 1)]),
+    ("pool-wide-pad1", (1, 2, 4), [("conv", dict(K=1, depth=1, rf=1, identity=True)), ("pool", dict(k=2, s=2, p=1)), ("flatten",), ("gs", 1)]),
+    ("pool-k3-s2-p1", (1, 3, 3), [("conv", dict(K=1, depth=1, rf=1, identity=True)), ("pool", dict(k=3, s=2, p=1)), ("flatten",), ("gs", 1)]),
+    ("conv-pool-conv-dense3", (1, 3, 3), [("conv", dict(K=2, depth=1, rf=2)), ("pool", dict(k=2, s=1)), ("conv", dict(K=2, depth=1, rf=1)),
+                                          ("flatten",), ("dense", 5), ("dense", 7), ("dense", 4), ("gs", 2)]),
+    ("dense4-after-conv-wide-odd", (1, 2, 2), [("conv", dict(K=2, depth=1, rf=1)), ("flatten",), ("dense", 3), ("dense", 12), ("dense", 4), ("dense", 6), ("gs", 3)]),
+    ("conv-unique", (2, 2, 2), [("conv", dict(K=2, depth=2, rf=2, conn="random-unique")), ("flatten",), ("gs", 1)]),
+    ("conv-nogs", (1, 3, 3), [("conv", dict(K=2, depth=1, rf=2))]),
+    ("conv-flatten-nogs", (1, 2, 3), [("conv", dict(K=2, depth=1, rf=2, pad=1)), ("flatten",)]),
+    ("conv3d-pad1", (1, 2, 2, 2), [("conv", dict(K=2, depth=1, rf=2, pad=1)), ("flatten",), ("gs", 2)]),
+    ("conv3d-noncubic-rf", (1, 2, 3, 2), [("conv", dict(K=2, depth=2, rf=(2, 3, 1))), ("flatten",), ("gs", 2)]),
+    ("conv3d-noncubic-rf-b", (1, 2, 2, 3), [("conv", dict(K=2, depth=2, rf=(1, 2, 3), pad=0)), ("flatten",), ("gs", 1)]),
+    ("conv3d-stride2", (1, 3, 2, 3), [("conv", dict(K=1, depth=1, rf=2, stride=2, pad=1)), ("flatten",), ("gs", 1)]),
+    ("pool3d-pad1", (1, 2, 2, 2), [("conv", dict(K=1, depth=1, rf=1, identity=True)), ("pool", dict(k=2, s=2, p=1)), ("flatten",), ("gs", 1)]),
+    ("pool3d-pad1-rect", (1, 3, 2, 2), [("conv", dict(K=1, depth=1, rf=1, identity=True)), ("pool", dict(k=2, s=1, p=1)), ("flatten",), ("gs", 1)]),
+    ("pool3d-k3-s2-p1", (1, 2, 3, 2), [("conv", dict(K=1, depth=1, rf=1, identity=True)), ("pool", dict(k=3, s=2, p=1)), ("flatten",), ("gs", 1)]),
+]
